@@ -49,6 +49,7 @@ type FuncContract struct {
 	Pkg      string   // package path of the contract file
 	File     string
 	Line     int
+	Implements string  // key of the iface contract this function must also satisfy
 	Spawns   []*Clause // spawn effects for closures started with `go`
 	AtCalls  map[string][]*Clause // callee name -> obligations at every call of that callee inside this function
 	Used     bool
@@ -142,11 +143,24 @@ type Contracts struct {
 	Consts    map[string]string // spec constants name -> value source
 	ModSets   map[string][2]string // name -> (param, list text)
 	ObjInvs   map[string][]*TypeInv // qualified type -> invariants over mutable state (assumed at entry / proved at exit of `entry` methods)
+	Abstractions map[string]*Abstraction // ghost global name -> definition over the state of a receiver type
+}
+
+// Abstraction defines a ghost global map as a function of the state of the object whose method is being
+// verified:  abstraction $Trusted[s] of (h *Hub) := <expr over h and s>
+type Abstraction struct {
+	Name string
+	Key  string // bound variable for the index
+	Var  string // receiver variable
+	Type string // qualified receiver type
+	E    Expr
+	Src  string
+	Pkg  string
 }
 
 func newContracts() *Contracts {
 	return &Contracts{Funcs: map[string]*FuncContract{}, Loops: map[string]*LoopContract{}, Preds: map[string]*PredDef{},
-		Tables: map[string]*TableDef{}, Derived: map[string][2]string{}, TypeInvs: map[string]*TypeInv{}, Immutable: map[string]bool{}, Consts: map[string]string{}, ModSets: map[string][2]string{}, ObjInvs: map[string][]*TypeInv{}}
+		Tables: map[string]*TableDef{}, Derived: map[string][2]string{}, TypeInvs: map[string]*TypeInv{}, Immutable: map[string]bool{}, Consts: map[string]string{}, ModSets: map[string][2]string{}, ObjInvs: map[string][]*TypeInv{}, Abstractions: map[string]*Abstraction{}}
 }
 
 var (
@@ -591,6 +605,23 @@ func (cs *Contracts) loadContractFile(path, pkgPath string, short map[string]str
 				return err
 			}
 			cs.Axioms = append(cs.Axioms, &AxiomDef{Name: c.Label, E: c.E, Src: c.Src, Pkg: pkgPath})
+		case "abstraction":
+			// abstraction $Trusted[s] of (h *Hub) := expr
+			m := regexp.MustCompile(`^(\$\w+)\[(\w+)\]\s+of\s+\((\w+)\s+\*?([\w./]+)\)\s*:=\s*(.*)$`).FindStringSubmatch(rest)
+			if m == nil {
+				return fail("abstraction $G[k] of (x *T) := expr")
+			}
+			e, err := parseSpec(cs.expandModSets(m[5]))
+			if err != nil {
+				return fail("%v", err)
+			}
+			cs.Abstractions[m[1]] = &Abstraction{Name: m[1], Key: m[2], Var: m[3], Type: cs.qualify(m[4], pkgPath, short), E: e, Src: m[5], Pkg: pkgPath}
+		case "implements":
+			if curF == nil {
+				return fail("implements outside a function contract")
+			}
+			i := strings.LastIndex(rest, ".")
+			curF.Implements = "iface:" + cs.qualify(rest[:i], pkgPath, short) + rest[i:]
 		case "modset", "macro":
 			// modset hs(c) := c.a, c.b, ...
 			m := regexp.MustCompile(`^(\w+)\((\w*)\)\s*:=\s*(.*)$`).FindStringSubmatch(rest)
